@@ -58,6 +58,7 @@ TStep ==
           /\ Chk("C06", "LockedLeqEscrow", LockedLeqEscrow(MS'), e)
           /\ Chk("C06", "TotalsMatch", TotalsMatch(MS'), e)
           /\ Chk("C01", "MarketSolvent", Solvent(MS'), e)
+          /\ Chk("C01", "MarketNoStranding", NoStranding, e)
           /\ Chk("C06", "WithdrawExact", WithdrawExact, e)
           /\ Chk("C06", "EscrowOnlyOwnMoves", EscrowOnlyOwnMoves, e)
           /\ Chk("C07", "EscrowExplained", EscrowExplained(MS', G'), e)
